@@ -44,8 +44,9 @@ def t3_write(sx, nbr, nbw, nmaxb, oldlens, lens, emulated):
 
 def t4_write(sx, ver, mle, mlc, mfs, oldlens, lens, typ, fsci):
     oldlen = sx.pick("oldlen", oldlens)
+    # the card's file is 6 bytes longer than the capability container declares
     w = worlds.T4World(sx, ver, sx.int("mle", mle[0], mle[1]), sx.int("mlc", mlc[0], mlc[1]),
-                       mfs, oldlen, typ=typ, fsci=fsci)
+                       mfs, oldlen, typ=typ, fsci=fsci, guard=6)
     n = sx.pick("n", [x for x in lens_for(w.cap, lens + ["cap+1", "cap+8"], slack=8)])
     return ndefflow.roundtrip(sx, w, n, prop="C03")
 
@@ -53,7 +54,7 @@ def t4_write(sx, ver, mle, mlc, mfs, oldlens, lens, typ, fsci):
 def t4_format(sx, ver, mle, mlc, mfs, oldlens, wipe, typ, fsci):
     oldlen = sx.pick("oldlen", oldlens)
     w = worlds.T4World(sx, ver, sx.int("mle", mle[0], mle[1]), sx.int("mlc", mlc[0], mlc[1]),
-                       mfs, oldlen, typ=typ, fsci=fsci)
+                       mfs, oldlen, typ=typ, fsci=fsci, guard=6)
     return ndefflow.formatflow(sx, w, wipe)
 
 
